@@ -130,6 +130,41 @@ def run(ctx):
             o = att(lambda: Output(1000, address=hk.address(), network=net))
             cases.append(('dest_script %s %s' % (net, a), hexp(o.lock_script) if o is not None else 'none', True))
     ctx.compare(cases, 'key-to-script')
+
+    # ---- an HD key handed to Output(...) after it was asked for other address forms: the output must still be the standard
+    #      script of THAT key for ITS witness type, and Output.address the address of that script -------------------------------
+    histories = [(), ('default',), ('bech32',), ('base58',), ('nested',), ('bech32', 'default'), ('nested', 'base58')]
+    for net in ('bitcoin', 'testnet', 'litecoin'):
+        d = NETWORK_DEFINITIONS[net]
+        for wt in ('legacy', 'p2sh-segwit', 'segwit'):
+            for hist in (histories if T else rng.sample(histories, 4)):
+                hk = att(lambda: HDKey.from_seed(bytes(rng.randrange(256) for _ in range(32)), network=net, witness_type=wt))
+                if hk is None:
+                    continue
+                hh = RIPEMD160.new(hashlib.sha256(hk.public_byte).digest()).digest()
+                for stepname in hist:
+                    att({'default': lambda: hk.address(), 'bech32': lambda: hk.address(encoding='bech32'),
+                         'base58': lambda: hk.address(encoding='base58'),
+                         'nested': lambda: hk.address(script_type='p2sh_p2wpkh', encoding='base58')}[stepname])
+                if wt == 'legacy':
+                    want_script = b'\x76\xa9\x14' + hh + b'\x88\xac'
+                    want_addr = b58addr(d['prefix_address'], hh)
+                elif wt == 'segwit':
+                    want_script = b'\x00\x14' + hh
+                    want_addr = segwit_enc_ref(d['prefix_bech32'], 0, hh)
+                else:
+                    rh = RIPEMD160.new(hashlib.sha256(b'\x00\x14' + hh).digest()).digest()
+                    want_script = b'\xa9\x14' + rh + b'\x87'
+                    want_addr = b58addr(d['prefix_address_p2sh'], rh)
+                o = att(lambda: Output(1000, address=hk, network=net))
+                ctx.evals += 1
+                ctx.count('from:hdkey-object-after-history')
+                ctx.nontrivial.add(hash((net, wt, hist)))
+                got = None if o is None else (o.lock_script.hex(), o.address)
+                if got != (want_script.hex(), want_addr):
+                    ctx.violation('an output built from an HD key is not the standard script / address of that key',
+                                  {'op': 'output-from-hdkey', 'network': net, 'witness_type': wt, 'address_calls_before': list(hist),
+                                   'observed': got, 'expected': (want_script.hex(), want_addr)})
     ctx.exhaustive = False
     ctx.assumptions += ['networks that share a version byte / HRP in the library\'s own table (e.g. bitcoin and regtest Base58 versions) are not '
                         'distinguishable; the Spec accepts an address on every network whose table entry matches']
